@@ -171,6 +171,9 @@ func (fr *Frame) selector(st *State, n *ast.SelectorExpr) Val {
 		if curPtr {
 			fr.safety(st, "nil-deref", fr.src(n.X), n, "(not (= "+cur.T+" 0))")
 		}
+		if curPtr {
+			fr.guardedAccess(st, n, cur, curT, fv, "read")
+		}
 		cur = x.readField(st, cur, curT, curPtr, fv, true)
 		if k < len(idx)-1 {
 			curT, curPtr = derefType(fv.Type())
